@@ -241,11 +241,12 @@ def special_programs():
     out.append('\n\n  \n')
     out.append('주석만 있는 파일 abc')
     # file sizes around the usual buffer sizes, a 3-byte character across each boundary
-    for size, deltas in ((8192, (-1, 0, 1)), (65536, (1,))):
+    for size, deltas in ((8192, (-1, 0, 1)), (65536, (-1, 0, 1))):
         for delta in deltas:
-            body = '형. ' * ((size + delta) // 5)
-            pad = (size + delta) - len(body.encode('utf-8'))
-            out.append(body + 'x' * pad + ' 형... 항.')
+            head = '형. ' * 50
+            tail = ' 형... 항.'
+            room = size + delta - len(head.encode('utf-8')) - 2      # the boundary falls inside the run of 3-byte characters
+            out.append(head + '가' * (room // 3) + 'x' * (room % 3) + '가가' + tail)
     # size ladders (hv/scale.py) through the real binary
     from . import scale
     out += [scale.deep_program(1, 65, 65), scale.many_labels(65, 7), scale.straight(300), scale.loop_program(180) + ' 항.']
